@@ -3,6 +3,7 @@ import sys
 import functools
 from itertools import zip_longest
 import operator
+import types
 import typing as t
 from threading import RLock
 from typing_extensions import ParamSpec
@@ -118,6 +119,8 @@ def replace_typevars(ty: t.Any,
 
     args = (replace_typevars(ty, replacements) for ty in args)
 
+    if base is getattr(types, 'UnionType', t.Union):
+        base = t.Union  # PEP 604 unions (`A | B`) can't be re-subscripted
     if base is t.Union:
         args = tuple(flatten_union_args(args))
         # deduplicate union
